@@ -129,6 +129,7 @@ type BuildReq struct {
 	GC          bool     `json:"gc,omitempty"`     // run GC after load instead of building
 	Twice       bool     `json:"twice,omitempty"`  // run the target twice on the same loaded project
 	Reload      bool     `json:"reload,omitempty"` // Reload() between the two runs
+	HashAround  bool     `json:"hash_around,omitempty"` // hash the whole tree after Load and again after Run/GC
 }
 
 type BuildRes struct {
@@ -140,6 +141,8 @@ type BuildRes struct {
 	Targets []string `json:"targets,omitempty"`
 	Flags   []string `json:"flags,omitempty"`
 	Panic   string   `json:"panic,omitempty"`
+	// Changed lists what Run (or GC) changed on disk, when HashAround was requested.
+	Changed []string `json:"changed,omitempty"`
 }
 
 // Build runs a real dawn.Load (+Run / GC) in this process.
@@ -161,6 +164,11 @@ func Build(req BuildReq) (res BuildRes) {
 	}
 	for _, f := range proj.Flags() {
 		res.Flags = append(res.Flags, fmt.Sprintf("%s=%v", f.Name, f.Value))
+	}
+	var before map[string]string
+	if req.HashAround {
+		before = TreeHash(req.Root, nil)
+		defer func() { res.Changed = DiffMaps(before, TreeHash(req.Root, nil)) }()
 	}
 	if req.GC {
 		if err := proj.GC(); err != nil {
